@@ -264,12 +264,15 @@ def judge(spec, results):
         else:
             add('CRASH_ONLY_IN_HISTORY', 'every call survives alone in a fresh process, the history ends with %s at %s' % (hist.crash_class(), hist.crash_site()), 'hist')
         return V
-    allok = True
+    allok = True       # only a failing CLI main excuses a leak: it ends in exit(), after which nothing is "still allocated"
+    anyfail = False
     for k, o in enumerate(spec['ops']):
         for i in hix['map'][k]:
             ro = hist.op(i)
             if ro is None or (ro.rc != 0 and not ro.f.get('skipped')):
-                allok = False
+                anyfail = True
+                if o['k'] == 'CLI' or ro is None:
+                    allok = False
     for k, o in enumerate(spec['ops']):
         tag = 's%d' % k
         if tag not in results:
@@ -299,7 +302,7 @@ def judge(spec, results):
     if lo is not None:
         live = int(lo.f.get('live', 0))
         if live > 0 and allok:
-            add('LEAK_AFTER_FREE', '%d allocation(s), %s bytes of kalign memory still allocated after every object was freed (all calls returned OK); blocks (size@allocation#):%s' % (live, lo.f.get('bytes'), lo.f.get('blocks', '')), 'hist')
+            add('LEAK_AFTER_FREE' if not anyfail else 'LEAK_AFTER_FAILED_CALL', '%d allocation(s), %s bytes of kalign memory still allocated after every object was freed (%s); blocks (size@allocation#):%s' % (live, lo.f.get('bytes'), 'all calls returned OK' if not anyfail else 'a library call had failed and its object was freed', lo.f.get('blocks', '')), 'hist')
         if int(lo.f.get('streams', 0)) > 0:
             add('STREAM_LEFT_OPEN', '%s stream(s) still open at the end of the history' % lo.f.get('streams'), 'hist')
     return V
